@@ -27,8 +27,9 @@ def ascii_lower(s):
 def file_name(lang, crate):
     c = crate.replace("-", "_")
     if lang == "swift":
-        # RenameExt::to_pascal_case on the crate name: its case operations are the ASCII ones (`ärger_core` -> `ärgerCore`)
-        allcaps = ascii_upper(c) == c
+        # RenameExt::to_pascal_case on the crate name: its case operations are the ASCII ones (`ärger_core` -> `ärgerCore`); "all
+        # capitals" (the tail is lower-cased) = no lowercase letter of any script (rename.rs: is_all_uppercase)
+        allcaps = rust_all_uppercase(c)
         out, cap = "", True
         for ch in c:
             if ch == "_":
